@@ -443,3 +443,65 @@ pub(crate) fn default_ll_table() -> FSETable {
 pub(crate) fn default_of_table() -> FSETable {
     build_table_from_probabilities(OF_DIST, 5)
 }
+
+/// Pass-through accessors for the verification harness.
+#[cfg(feature = "verif_hooks")]
+pub mod verif {
+    use super::*;
+
+    /// (index, baseline, num_bits) of one encoder state
+    pub type StateInfo = (usize, usize, u8);
+
+    pub fn build_from_counts(counts: &[usize], max_log: u8, avoid_0_numbit: bool) -> FSETable {
+        build_table_from_counts(counts, max_log, avoid_0_numbit)
+    }
+
+    pub fn build_from_probabilities(probs: &[i32], acc_log: u8) -> FSETable {
+        build_table_from_probabilities(probs, acc_log)
+    }
+
+    /// Probability recorded per symbol (256 entries).
+    pub fn probabilities(table: &FSETable) -> Vec<i32> {
+        table.states.iter().map(|s| s.probability).collect()
+    }
+
+    /// Encoder states per symbol (256 entries).
+    pub fn states(table: &FSETable) -> Vec<Vec<StateInfo>> {
+        table
+            .states
+            .iter()
+            .map(|s| {
+                s.states
+                    .iter()
+                    .map(|st| (st.index, st.baseline, st.num_bits))
+                    .collect()
+            })
+            .collect()
+    }
+
+    pub fn write_table(table: &FSETable) -> Vec<u8> {
+        let mut writer = BitWriter::new();
+        table.write_table(&mut writer);
+        writer.dump()
+    }
+
+    /// Table description followed by a single-state stream.
+    pub fn encode_single(table: FSETable, data: &[u8]) -> Vec<u8> {
+        let mut writer = BitWriter::new();
+        let mut encoder = FSEEncoder::new(table, &mut writer);
+        encoder.encode(data);
+        writer.dump()
+    }
+
+    /// Table description followed by a stream of two interleaved states.
+    pub fn encode_interleaved(table: FSETable, data: &[u8]) -> Vec<u8> {
+        let mut writer = BitWriter::new();
+        let mut encoder = FSEEncoder::new(table, &mut writer);
+        encoder.encode_interleaved(data);
+        writer.dump()
+    }
+
+    pub fn default_tables() -> (FSETable, FSETable, FSETable) {
+        (default_ll_table(), default_ml_table(), default_of_table())
+    }
+}
